@@ -621,7 +621,12 @@ type bigClient struct {
 }
 
 func (f *bigClient) Search(_ context.Context, in *pb.SearchRequest, _ ...grpc.CallOption) (*pb.SearchResponse, error) {
-	r, c := f.r, f.r.c
+	return f.r.doSearch(f.g, in)
+}
+
+func (r *bigRun) doSearch(g *Gen, in *pb.SearchRequest) (*pb.SearchResponse, error) {
+	c := r.c
+	f := struct{ g *Gen }{g}
 	if in.Query != r.query {
 		return nil, status.Error(codes.Canceled, "stale request")
 	}
@@ -678,7 +683,16 @@ func (s *bigStream) Recv() (*pb.BinaryData, error) {
 }
 
 func (f *bigClient) Fetch(_ context.Context, in *pb.FetchRequest, _ ...grpc.CallOption) (pb.StoreApi_FetchClient, error) {
-	r, c := f.r, f.r.c
+	st, err := f.r.doFetch(f.g, in)
+	if err != nil {
+		return nil, err
+	}
+	return st, nil
+}
+
+func (r *bigRun) doFetch(g *Gen, in *pb.FetchRequest) (*bigStream, error) {
+	c := r.c
+	f := struct{ g *Gen }{g}
 	mids := make([]uint64, 0, len(in.Ids))
 	for _, s := range in.Ids {
 		id, err := seq.FromString(s)
@@ -793,18 +807,122 @@ type bigGot struct {
 	IDs      int      `json:"ids"`
 	Docs     int      `json:"docs"`
 	Lost     int      `json:"docs_lost,omitempty"`
-	LostAt   int      `json:"first_lost_at,omitempty"`
+	LostAt   int      `json:"first_lost_at"` // -1: none
 	Wrong    int      `json:"docs_wrong,omitempty"`
-	WrongAt  int      `json:"first_wrong_at,omitempty"`
+	WrongAt  int      `json:"first_wrong_at"`
 	Detail   string   `json:"detail,omitempty"`
 	Problems []string `json:"problems,omitempty"`
+}
+
+// judge holds a result to the rule.  id(i) is the i-th returned ID (nil: the response has no ID list of its own, the
+// documents carry the IDs), next() the next document of the response.  Returns "" or the class of the disagreement.
+func (b *BigRule) judge(r *bigRun, id func(i int) (mid, rid uint64), next func() (mid, rid uint64, data []byte, err error), got *bigGot) string {
+	got.LostAt, got.WrongAt = -1, -1
+	expReq := make([][]uint64, len(b.Gens))
+	var buf []byte
+	idsBad, countBad := "", ""
+	ended := false
+	ok := b.expect(func(i int, mid uint64, o int, empty bool) {
+		expReq[o] = append(expReq[o], mid)
+		if id != nil {
+			if m, rid := id(i); m != mid || rid != b.RID {
+				if idsBad == "" {
+					idsBad = fmt.Sprintf("position %d: returned id %d.%d, the id of the page is %d.%d", i, m, rid, mid, b.RID)
+				}
+				return
+			}
+		}
+		if ended || idsBad != "" {
+			return
+		}
+		dm, dr, data, e := next()
+		if e != nil {
+			ended = true
+			countBad = fmt.Sprintf("the documents end at position %d of %d: %v", i, b.Len, e)
+			return
+		}
+		got.Docs++
+		buf = buf[:0]
+		if !empty {
+			buf = appendBody(buf, mid, b.RID, b.Gens[o].Host)
+		}
+		switch {
+		case dm != mid || dr != b.RID:
+			if id == nil {
+				idsBad = fmt.Sprintf("position %d: document of id %d.%d, the id of the page is %d.%d", i, dm, dr, mid, b.RID)
+				return
+			}
+			if got.Wrong == 0 {
+				got.WrongAt = i
+				got.Detail = fmt.Sprintf("document %d carries id %d.%d, the returned id is %d.%d", i, dm, dr, mid, b.RID)
+			}
+			got.Wrong++
+		case string(data) == string(buf):
+		case len(data) == 0:
+			if got.Lost == 0 {
+				got.LostAt = i
+			}
+			got.Lost++
+		default:
+			if got.Wrong == 0 {
+				got.WrongAt = i
+				got.Detail = fmt.Sprintf("document %d is %q, the rule says %q", i, data, buf)
+			}
+			got.Wrong++
+		}
+	})
+	if !ok {
+		got.Detail = "the generators do not partition the page"
+		return "infra"
+	}
+	if idsBad != "" {
+		got.Detail = idsBad
+		return "ids"
+	}
+	if countBad == "" {
+		if _, _, _, e := next(); e == nil {
+			countBad = fmt.Sprintf("more than the %d documents of the page are delivered", b.Len)
+		} else if !errors.Is(e, io.EOF) {
+			countBad = fmt.Sprintf("the documents fail after the page: %v", e)
+		}
+	}
+	// every id must have been fetched from the store that holds it: one request per store, its ids of the page in page order
+	r.mu.Lock()
+	defer r.mu.Unlock()
+	for o := range b.Gens {
+		h := b.Gens[o].Host
+		rq := r.reqs[h]
+		switch {
+		case len(expReq[o]) == 0 && len(rq) == 0:
+		case len(rq) != 1:
+			got.Detail = fmt.Sprintf("host %s got %d fetch requests, it holds %d ids of the page", h, len(rq), len(expReq[o]))
+			return "ids"
+		case !sameMIDs(rq[0], expReq[o]):
+			got.Detail = fmt.Sprintf("host %s was asked to fetch %d ids, not its %d ids of the page in page order", h, len(rq[0]), len(expReq[o]))
+			return "ids"
+		}
+	}
+	switch {
+	case countBad != "":
+		got.Detail = countBad
+		return "doc-count"
+	case got.Wrong > 0:
+		return "doc-wrong"
+	case got.Lost > 0:
+		return "doc-lost"
+	}
+	return ""
+}
+
+func newBigRun(c *Case, query string) *bigRun {
+	return &bigRun{c: c, query: query, searched: map[string]int{}, reqs: map[string][][]uint64{}}
 }
 
 // runBig generates the stores of the rule, runs the real Ingestor.Search, reads the document iterator to its end and
 // holds the result to the rule.  Returns "" or the class of the disagreement.
 func runBig(c *Case) (cls string, got bigGot) {
 	b := c.Big
-	r := &bigRun{c: c, query: "service:x", searched: map[string]int{}, reqs: map[string][][]uint64{}}
+	r := newBigRun(c, "service:x")
 	clients := map[string]pb.StoreApiClient{}
 	for i := range b.Gens {
 		clients[b.Gens[i].Host] = &bigClient{g: &b.Gens[i], r: r}
@@ -848,95 +966,13 @@ func runBig(c *Case) (cls string, got bigGot) {
 		got.Detail = fmt.Sprintf("%d ids returned, the page has %d", len(qpr.IDs), b.Len)
 		return "ids", got
 	}
-	expReq := make([][]uint64, len(b.Gens))
-	var buf []byte
-	idsBad, countBad := "", ""
-	ended := false
-	ok := b.expect(func(i int, mid uint64, o int, empty bool) {
-		expReq[o] = append(expReq[o], mid)
-		id := qpr.IDs[i].ID
-		if uint64(id.MID) != mid || uint64(id.RID) != b.RID {
-			if idsBad == "" {
-				idsBad = fmt.Sprintf("position %d: returned id %d.%d, the id of the page is %d.%d", i, id.MID, id.RID, mid, b.RID)
-			}
-			return
-		}
-		if ended {
-			return
-		}
-		d, e := docs.Next()
-		if e != nil {
-			ended = true
-			countBad = fmt.Sprintf("the document iterator ended at position %d of %d: %v", i, b.Len, e)
-			return
-		}
-		got.Docs++
-		buf = buf[:0]
-		if !empty {
-			buf = appendBody(buf, mid, b.RID, b.Gens[o].Host)
-		}
-		switch {
-		case !d.ID.Equal(id):
-			if got.Wrong == 0 {
-				got.WrongAt = i
-				got.Detail = fmt.Sprintf("document %d carries id %d.%d, the returned id is %d.%d", i, d.ID.MID, d.ID.RID, id.MID, id.RID)
-			}
-			got.Wrong++
-		case string(d.Data) == string(buf):
-		case len(d.Data) == 0:
-			if got.Lost == 0 {
-				got.LostAt = i
-			}
-			got.Lost++
-		default:
-			if got.Wrong == 0 {
-				got.WrongAt = i
-				got.Detail = fmt.Sprintf("document %d is %q, the rule says %q", i, d.Data, buf)
-			}
-			got.Wrong++
-		}
-	})
-	if !ok {
-		got.Detail = "the generators do not partition the page"
-		return "infra", got
-	}
-	if idsBad != "" {
-		got.Detail = idsBad
-		return "ids", got
-	}
-	if countBad == "" {
-		if _, e := docs.Next(); e == nil {
-			countBad = fmt.Sprintf("the document iterator delivers more than the %d documents of the page", b.Len)
-		} else if !errors.Is(e, io.EOF) {
-			countBad = fmt.Sprintf("the document iterator fails after the page: %v", e)
-		}
-	}
-	// every id must have been fetched from the store that holds it: one request per store, its ids of the page in page order
-	r.mu.Lock()
-	defer r.mu.Unlock()
-	for o := range b.Gens {
-		h := b.Gens[o].Host
-		rq := r.reqs[h]
-		switch {
-		case len(expReq[o]) == 0 && len(rq) == 0:
-		case len(rq) != 1:
-			got.Detail = fmt.Sprintf("host %s got %d fetch requests, it holds %d ids of the page", h, len(rq), len(expReq[o]))
-			return "ids", got
-		case !sameMIDs(rq[0], expReq[o]):
-			got.Detail = fmt.Sprintf("host %s was asked to fetch %d ids, not its %d ids of the page in page order", h, len(rq[0]), len(expReq[o]))
-			return "ids", got
-		}
-	}
-	switch {
-	case countBad != "":
-		got.Detail = countBad
-		return "doc-count", got
-	case got.Wrong > 0:
-		return "doc-wrong", got
-	case got.Lost > 0:
-		return "doc-lost", got
-	}
-	return "", got
+	cls = b.judge(r,
+		func(i int) (uint64, uint64) { return uint64(qpr.IDs[i].ID.MID), uint64(qpr.IDs[i].ID.RID) },
+		func() (uint64, uint64, []byte, error) {
+			d, e := docs.Next()
+			return uint64(d.ID.MID), uint64(d.ID.RID), d.Data, e
+		}, &got)
+	return cls, got
 }
 
 // widthClass names the integer width the page size needs (the family probes the boundaries of these)
@@ -1381,13 +1417,75 @@ func nontrivial(c *Case) bool {
 // ---------------------------------------------------------------- path "api": the proxy's gRPC API over sockets
 
 var current atomic.Pointer[run]
+var currentBig atomic.Pointer[bigRun] // a generated big page is being exported (family "big")
+
+func (r *bigRun) gen(host string) *Gen {
+	for i := range r.c.Big.Gens {
+		if r.c.Big.Gens[i].Host == host {
+			return &r.c.Big.Gens[i]
+		}
+	}
+	r.problem("unknown host %s asked", host)
+	return &Gen{Host: host}
+}
 
 type fakeServer struct {
 	pb.UnimplementedStoreApiServer
 	host string
 }
 
+// warmState: a freshly started proxy dials its stores in the background with a connect timeout of 100 ms
+// (proxyapi appendClients); on a loaded machine the first requests would find connections that are not up yet
+// and see "store unavailable" where the scenario says the store answers.  Before its first case a proxy is
+// therefore sent warm-up searches until every host of its configuration has been reached once: the hot hosts
+// refuse (so that every replica is tried) until all of them were seen, then declare the range too old, which
+// sends the search to the cold hosts.
+type warmState struct {
+	mu   sync.Mutex
+	hot  map[string]bool
+	cold map[string]bool
+	seen map[string]bool
+}
+
+const warmQuery = "service:warmup"
+
+var warming atomic.Pointer[warmState]
+
+func (w *warmState) allSeen(set map[string]bool) bool {
+	for h := range set {
+		if !w.seen[h] {
+			return false
+		}
+	}
+	return true
+}
+
+func (w *warmState) done() bool {
+	w.mu.Lock()
+	defer w.mu.Unlock()
+	return w.allSeen(w.hot) && w.allSeen(w.cold)
+}
+
+func (w *warmState) answer(host string) (*pb.SearchResponse, error) {
+	w.mu.Lock()
+	defer w.mu.Unlock()
+	w.seen[host] = true
+	if w.hot[host] && w.allSeen(w.hot) && len(w.cold) > 0 {
+		return &pb.SearchResponse{Code: pb.SearchErrorCode_INGESTOR_QUERY_WANTS_OLD_DATA}, nil
+	}
+	return nil, status.Error(codes.Unavailable, "warming up")
+}
+
 func (s *fakeServer) Search(_ context.Context, in *pb.SearchRequest) (*pb.SearchResponse, error) {
+	if in.Query == warmQuery {
+		if w := warming.Load(); w != nil {
+			return w.answer(s.host)
+		}
+		return nil, status.Error(codes.Canceled, "stale request")
+	}
+	if rb := currentBig.Load(); rb != nil {
+		return rb.doSearch(rb.gen(s.host), in)
+	}
 	r := current.Load()
 	if r == nil {
 		return nil, status.Error(codes.Unavailable, "no case")
@@ -1396,6 +1494,24 @@ func (s *fakeServer) Search(_ context.Context, in *pb.SearchRequest) (*pb.Search
 }
 
 func (s *fakeServer) Fetch(in *pb.FetchRequest, out pb.StoreApi_FetchServer) error {
+	if rb := currentBig.Load(); rb != nil {
+		st, err := rb.doFetch(rb.gen(s.host), in)
+		if err != nil {
+			return err
+		}
+		for {
+			d, err := st.Recv()
+			if errors.Is(err, io.EOF) {
+				return nil
+			}
+			if err != nil {
+				return err
+			}
+			if err := out.Send(d); err != nil {
+				return err
+			}
+		}
+	}
 	r := current.Load()
 	if r == nil {
 		return status.Error(codes.Unavailable, "no case")
@@ -1432,7 +1548,7 @@ func (e *apiEnv) hostAddr(h string) (string, error) {
 	if err != nil {
 		return "", err
 	}
-	s := grpc.NewServer()
+	s := grpc.NewServer(grpc.MaxRecvMsgSize(256*consts.MB), grpc.MaxSendMsgSize(256*consts.MB))
 	pb.RegisterStoreApiServer(s, &fakeServer{host: h})
 	go func() { _ = s.Serve(lis) }()
 	e.addr[h] = lis.Addr().String()
@@ -1492,6 +1608,28 @@ func (e *apiEnv) proxy(c *Case) (seqproxyapi.SeqProxyApiClient, error) {
 		return nil, err
 	}
 	p := seqproxyapi.NewSeqProxyApiClient(conn)
+	w := &warmState{hot: map[string]bool{}, cold: map[string]bool{}, seen: map[string]bool{}}
+	for _, sh := range c.Hot {
+		for _, h := range sh {
+			w.hot[h] = true
+		}
+	}
+	for _, sh := range c.Cold {
+		for _, h := range sh {
+			w.cold[h] = true
+		}
+	}
+	warming.Store(w)
+	defer warming.Store(nil)
+	for deadline := time.Now().Add(60 * time.Second); !w.done(); time.Sleep(10 * time.Millisecond) {
+		if time.Now().After(deadline) {
+			return nil, fmt.Errorf("the proxy does not reach the scripted stores of %s (connections not up after 60 s)", key)
+		}
+		ctx, cancel := context.WithTimeout(context.Background(), 10*time.Second)
+		_, _ = p.Search(ctx, &seqproxyapi.SearchRequest{Size: 1, Query: &seqproxyapi.SearchQuery{Query: warmQuery,
+			From: timestamppb.New(time.UnixMilli(1)), To: timestamppb.New(time.UnixMilli(1000))}})
+		cancel()
+	}
 	e.proxies[key] = p
 	return p, nil
 }
@@ -1574,6 +1712,54 @@ func (e *apiEnv) runAPI(c *Case, n int, complex bool) (Outcome, error) {
 	return o, nil
 }
 
+// runBigExport sends a generated big page through the proxy's gRPC Export (the API for pages of this size: the same
+// Ingestor.Search, the documents streamed one by one); the stores are the same generators behind real gRPC servers.
+func (e *apiEnv) runBigExport(c *Case, n int) (cls string, got bigGot, err error) {
+	p, err := e.proxy(c)
+	if err != nil {
+		return "", got, err
+	}
+	b := c.Big
+	r := newBigRun(c, fmt.Sprintf("service:c%d", n))
+	currentBig.Store(r)
+	defer currentBig.Store(nil)
+	ctx, cancel := context.WithTimeout(context.Background(), 50*time.Second)
+	defer cancel()
+	stream, err := p.Export(ctx, &seqproxyapi.ExportRequest{
+		Query: &seqproxyapi.SearchQuery{Query: r.query, From: timestamppb.New(time.UnixMilli(1)), To: timestamppb.New(time.UnixMilli(b.N + 1000))},
+		Size:  int64(c.Req.Size), Offset: int64(c.Req.Offset)})
+	if err != nil {
+		return "", got, err
+	}
+	got.Kind = "complete"
+	cls = b.judge(r, nil, func() (uint64, uint64, []byte, error) {
+		resp, e := stream.Recv()
+		if e != nil {
+			if !errors.Is(e, io.EOF) {
+				got.Err = e.Error()
+			}
+			return 0, 0, nil, e
+		}
+		id, e := seq.FromString(resp.GetDoc().GetId())
+		if e != nil {
+			return 0, 0, nil, fmt.Errorf("unparsable id %q in the export stream", resp.GetDoc().GetId())
+		}
+		return uint64(id.MID), uint64(id.RID), resp.GetDoc().GetData(), nil
+	}, &got)
+	got.IDs = got.Docs
+	r.mu.Lock()
+	got.Problems = append([]string(nil), r.problems...)
+	r.mu.Unlock()
+	if cls == "" && len(got.Problems) > 0 {
+		cls = "fake-protocol"
+	}
+	if cls == "doc-count" && got.Err != "" {
+		got.Kind = "error"
+		cls = "outcome-kind"
+	}
+	return cls, got, nil
+}
+
 // ---------------------------------------------------------------- main
 
 func emit(mu *sync.Mutex, v any) {
@@ -1601,6 +1787,7 @@ func main() {
 	conc := flag.Bool("conc", false, "replay the cases of one configuration as concurrent searches of one Ingestor")
 	concReps := flag.Int("conc-reps", 3, "")
 	concMin := flag.Int("conc-min", 20000, "at least this many searches per configuration")
+	bigAPIEvery := flag.Int("big-api-every", 0, "family big: send every k-th row (descending order) through the proxy's gRPC Export")
 	flag.Parse()
 	logger.SetLevel(zapcore.FatalLevel)
 	doIng := strings.Contains(*paths, "ingestor") && !*conc
@@ -1627,7 +1814,8 @@ func main() {
 	var evals, nontriv, altsTotal, altsSeen, bigRows, bigSmall, bigDocs int64
 	kinds := map[string]int{}
 	bigSem := make(chan struct{}, 8) // a generated page of 100000 ids costs some 50 MB while it is replayed
-	reportBig := func(n int, c *Case, cls string, got bigGot) {
+	var bigExports int64
+	reportBig := func(n int, path string, c *Case, cls string, got bigGot) {
 		hint := 0
 		if c.Hint != "" {
 			hint = 1
@@ -1636,8 +1824,8 @@ func main() {
 		if c.Big.Brk > 0 {
 			brk = 1
 		}
-		emit(&mu, map[string]any{"n": n, "path": "big", "what": cls,
-			"sig": fmt.Sprintf("%s:big:page=%s:stores=%d:hint=%d:brk=%d", cls, widthClass(c.Big.Len), len(c.Big.Gens), hint, brk),
+		emit(&mu, map[string]any{"n": n, "path": path, "what": cls,
+			"sig": fmt.Sprintf("%s:page=%s:stores=%d:hint=%d:brk=%d", cls, widthClass(c.Big.Len), len(c.Big.Gens), hint, brk),
 			"got": got, "exp": c.Big})
 	}
 	one := func(n int, c *Case) {
@@ -1664,7 +1852,7 @@ func main() {
 				os.Exit(3)
 			}
 			if cls != "" {
-				reportBig(n, c, cls, got)
+				reportBig(n, "big", c, cls, got)
 			}
 			if c.bigRow() {
 				return
@@ -1789,7 +1977,39 @@ func main() {
 	apiRuns := 0
 	if doAPI {
 		env := newAPIEnv()
+		nrow := 0
 		for n, c := range cases {
+			if c.bigRow() {
+				// rows of the big-page table: the k-th, 2k-th, ... of those the Export API can ask for (it has no order field)
+				if *bigAPIEvery <= 0 || c.Req.Order != "desc" {
+					continue
+				}
+				if nrow++; nrow%*bigAPIEvery != 0 {
+					continue
+				}
+				if *progress {
+					emit(&mu, map[string]any{"begin": n, "form": "big-export"})
+				}
+				cls, got, err := env.runBigExport(c, n)
+				if err != nil {
+					emit(&mu, map[string]any{"infra": "api path (export): " + err.Error()})
+					os.Exit(3)
+				}
+				if cls == "infra" {
+					emit(&mu, map[string]any{"infra": fmt.Sprintf("case %d: %s", n, got.Detail)})
+					os.Exit(3)
+				}
+				bigExports++
+				evals++
+				bigDocs += int64(got.Docs)
+				if cls != "" {
+					reportBig(n, "big-export", c, cls, got)
+				}
+				if *progress {
+					emit(&mu, map[string]any{"end": n})
+				}
+				continue
+			}
 			if *apiEvery > 1 && n%*apiEvery != 0 {
 				continue
 			}
@@ -1817,12 +2037,12 @@ func main() {
 	if *statsPath != "" {
 		if fh, err := os.OpenFile(*statsPath, os.O_APPEND|os.O_CREATE|os.O_WRONLY, 0o644); err == nil {
 			b, _ := json.Marshal(map[string]any{"api": apiRuns, "store": storeRuns, "racing_alts": altsTotal, "racing_alts_seen": altsSeen,
-				"conc_groups": cst.groups, "conc_searches": cst.searches, "big_rows": bigRows, "big_small": bigSmall, "big_docs": bigDocs})
+				"conc_groups": cst.groups, "conc_searches": cst.searches, "big_rows": bigRows, "big_small": bigSmall, "big_docs": bigDocs, "big_exports": bigExports})
 			fh.Write(append(b, '\n'))
 			fh.Close()
 		}
 	}
 	emit(&mu, map[string]any{"summary": true, "cases": len(cases), "evals": evals, "nontrivial": nontriv, "corpora": 0,
 		"api": apiRuns, "store": storeRuns, "kinds": kinds, "racing_alts": altsTotal, "racing_alts_seen": altsSeen,
-		"conc_groups": cst.groups, "conc_searches": cst.searches, "big_rows": bigRows, "big_small": bigSmall, "big_docs": bigDocs})
+		"conc_groups": cst.groups, "conc_searches": cst.searches, "big_rows": bigRows, "big_small": bigSmall, "big_docs": bigDocs, "big_exports": bigExports})
 }
